@@ -1635,6 +1635,17 @@ func generalizeErr(err error) error {
 		}
 	}
 
-	// if it is not a well known error, return it
+	// if it is not a well known error, return it - without the addresses that a net.OpError
+	// embeds in its text ("read tcp <local>-><client>: ..."), which would put client IPs in the logs
+	return stripErrAddrs(err)
+}
+
+// stripErrAddrs replaces any net.OpError in the chain of err by its underlying cause, so that the
+// text of an unanticipated network error names the failure but no endpoint.
+func stripErrAddrs(err error) error {
+	var opErr *net.OpError
+	for errors.As(err, &opErr) && opErr.Err != nil {
+		err = opErr.Err
+	}
 	return err
 }
